@@ -53,29 +53,56 @@ MUTANTS = [
  ('python-wrong-field', 'python', 'python.rs', 'self_.config.is_space_converted = true;', 'self_.config.is_non_space_converted = true;', 'fail', 'python.py_with_conversion_of_whitespace.effect'),
  ('python-threshold-accepts-zero', 'python', 'python.rs', 'if quantity <= 0 {', 'if quantity < 0 {', 'fail', 'python.py_with_minimum_repetitions'),
  ('python-build-always-rewrites', 'python', 'python.rs', 'if self.config.is_non_ascii_char_escaped {\n            replace_unicode_escape_sequences(regexp)', 'if !self.config.is_verbose_mode_enabled {\n            replace_unicode_escape_sequences(regexp)', 'fail', 'python.build.delegates'),
+ ('fcs-suffix-reverses-one-side', 'expr', 'expression.rs', '            graphemes_a.reverse();\n            graphemes_b.reverse();', '            graphemes_a.reverse();', 'fail', 'find_common_substring.'),
+ ('fcs-continues-after-mismatch', 'expr', 'expression.rs', '                    } else {\n                        break;\n                    }\n                }\n                _ => break,', '                    }\n                }\n                _ => break,', 'fail', 'find_common_substring.'),
+ ('remove-substring-off-by-one', 'expr', 'expression.rs', '                    if let Expression::Literal(_, _, _) = **expr1 {\n                        expr1.remove_substring(substring, length)', '                    if let Expression::Literal(_, _, _) = **expr1 {\n                        expr1.remove_substring(substring, length - 1)', 'fail', 'remove_substring'),
+ ('flatten-drops-nested-options', 'expr', 'expression.rs', '                Self::flatten_alternations(flattened_options, expr_options);', '                let _ = expr_options;', 'fail', 'flatten.lang'),
+ ('matrix-final-vector-inverted', 'matrix', 'expression.rs', 'if dfa.is_final_state(*state) {', 'if !dfa.is_final_state(*state) {', 'fail', 'matrix.'),
+ ('matrix-transposed', 'matrix', 'expression.rs', 'a[(i, j)] = if a[(i, j)].is_some() {\n                    Self::union(&a[(i, j)], &Some(literal), config)', 'a[(j, i)] = if a[(j, i)].is_some() {\n                    Self::union(&a[(j, i)], &Some(literal), config)', 'fail', 'matrix.'),
+ ('dfa-from-skips-first-cluster', 'trie', 'dfa.rs', '        for cluster in grapheme_clusters {\n            dfa.insert(cluster);', '        for cluster in &grapheme_clusters[1..] {\n            dfa.insert(cluster);', 'fail', ''),
+ ('dfa-new-initial-state-final', 'trie', 'dfa.rs', '            final_state_indices: HashSet::new(),\n            config,\n        }\n    }\n\n    fn insert', '            final_state_indices: HashSet::from([0]),\n            config,\n        }\n    }\n\n    fn insert', 'fail', ''),
+ ('splice-guard-inverted', 'splice', 'cluster.rs', 'if substr.len() < config.minimum_substring_length as usize {', 'if substr.len() > config.minimum_substring_length as usize {', 'fail', 'splice.units_respect_minimum_length'),
+ ('splice-range-count', 'splice', 'cluster.rs', '                substr.clone(),\n                count,\n                count,', '                substr.clone(),\n                1,\n                count,', 'fail', 'splice.units_respect_minimum_length'),
+ ('verbose-hash-not-escaped', 'render', 'regexp.rs', "            regexp = regexp.replace('#', \"\\\\#\");\n", '', 'fail', 'verbose.'),
+ ('verbose-replace-order-benign', 'render', 'regexp.rs', ".replace('\\u{b}', \"\\\\v\") // U+000B Line Tabulation\n            .replace('\\u{c}', \"\\\\f\"); // U+000C Form Feed", ".replace('\\u{c}', \"\\\\f\") // U+000C Form Feed\n            .replace('\\u{b}', \"\\\\v\"); // U+000B Line Tabulation", 'pass', ''),
+ ('verbose-space-before-hash-benign', 'render', 'regexp.rs', "            regexp = regexp.replace('#', \"\\\\#\");\n", "            regexp = regexp.replace(' ', \"\\\\ \").replace('#', \"\\\\#\");\n", 'fail', 'verbose.'),
+ ('verbose-whitespace-as-class-again', 'render', 'regexp.rs', 'regexp = regexp.replace(whitespace, &format!("\\\\u{:04x}", whitespace as u32));', 'regexp = regexp.replace(whitespace, "\\\\s");', 'undecided-or-fail', 'verbose.'),
+ ('verbose-vt-in-whitespace-list', 'render', 'regexp.rs', "'\\u{2029}', '\\u{202f}', '\\u{205f}', '\\u{3000}',", "'\\u{2029}', '\\u{202f}', '\\u{205f}', '\\u{3000}', '\\u{b}',", 'fail', 'verbose.'),
+ ('len-class-counts-zero', 'expr', 'expression.rs', 'Expression::CharacterClass(_, _) => 1,\n            Expression::Concatenation(expr1, expr2, _, _, _) => expr1.len() + expr2.len(),', 'Expression::CharacterClass(_, _) => 0,\n            Expression::Concatenation(expr1, expr2, _, _, _) => expr1.len() + expr2.len(),', 'fail', 'len.word_length'),
  ('wasm-wrong-field', 'wasm', 'wasm.rs', 'self.builder.config.is_start_anchor_disabled = true;\n        self.clone()', 'self.builder.config.is_end_anchor_disabled = true;\n        self.clone()', 'fail', 'wasm.withoutStartAnchor'),
 ]
-def run(repo, only=None, units=None):
+def _one(repo, m):
     from vx import run as R
-    out = []
-    for (mid, unit, f, old, new, expect, obl) in MUTANTS:
-        if only and mid not in only: continue
-        if units is not None and unit not in units: continue
-        src = open(os.path.join(repo, 'src', f)).read()
-        if old not in src: out.append({'mutant': mid, 'result': 'skipped (anchor not in current tree)'}); continue
-        tmp = tempfile.mkdtemp(prefix='vxmut_')
-        try:
-            shutil.copytree(os.path.join(repo, 'src'), os.path.join(tmp, 'src'))
-            shutil.copy(os.path.join(repo, 'Cargo.lock'), tmp)
-            open(os.path.join(tmp, 'src', f), 'w').write(src.replace(old, new, 1))
-            bd = os.path.join(tmp, 'build'); os.makedirs(bd)
-            r = R.run_unit(unit, tmp, os.path.join(ROOT, 'spec'), bd)
-            fails = [x['obligation'][1] for x in r.get('failures', []) if x['obligation']]
-            ok = (expect == 'fail' and r['status'] == 'failed' and any(obl in x for x in fails)) or (expect == 'pass' and r['status'] == 'verified')
-            out.append({'mutant': mid, 'unit': unit, 'expected': expect, 'status': r['status'], 'failed_obligations': sorted(set(fails))[:4], 'as_expected': ok})
-        finally:
-            shutil.rmtree(tmp, ignore_errors=True)
-    return out
+    (mid, unit, f, old, new, expect, obl) = m
+    src = open(os.path.join(repo, 'src', f)).read()
+    if old not in src: return {'mutant': mid, 'result': 'skipped (anchor not in current tree)'}
+    tmp = tempfile.mkdtemp(prefix='vxmut_')
+    try:
+        shutil.copytree(os.path.join(repo, 'src'), os.path.join(tmp, 'src'))
+        shutil.copy(os.path.join(repo, 'Cargo.lock'), tmp)
+        open(os.path.join(tmp, 'src', f), 'w').write(src.replace(old, new, 1))
+        bd = os.path.join(tmp, 'build'); os.makedirs(bd)
+        r = R.run_unit(unit, tmp, os.path.join(ROOT, 'spec'), bd)
+        fails = [x['obligation'][1] for x in r.get('failures', []) if x['obligation']]
+        kf_labels = set()
+        for ln in open(os.path.join(ROOT, 'known_findings.txt')):
+            if ln.startswith('finding:') and ('unit=%s ' % unit) in ln:
+                mm = __import__('re').search(r'obligation=(\S+)', ln)
+                if mm: kf_labels.add(mm.group(1))
+        ok = (expect == 'fail' and r['status'] == 'failed' and any(obl in x for x in fails)) or (expect == 'pass' and r['status'] == 'verified') \
+             or (expect == 'undecided-or-fail' and (r['status'] == 'undecided' or (r['status'] == 'failed' and any(obl in x for x in fails)))) \
+             or (expect == 'pass-kf' and r['status'] in ('verified', 'failed') and set(fails) <= kf_labels)
+        return {'mutant': mid, 'unit': unit, 'expected': expect, 'status': r['status'], 'failed_obligations': sorted(set(fails))[:4], 'as_expected': ok}
+    finally:
+        shutil.rmtree(tmp, ignore_errors=True)
+
+def run(repo, only=None, units=None):
+    """applies every listed edit to a scratch copy of the CURRENT tree (one at a time) and verifies the unit it belongs to"""
+    import concurrent.futures as cf
+    todo = [m for m in MUTANTS if (not only or m[0] in only) and (units is None or m[1] in units)]
+    with cf.ThreadPoolExecutor(max_workers=6) as ex:
+        return list(ex.map(lambda m: _one(repo, m), todo))
+
 if __name__ == '__main__':
     import json
     res = run(sys.argv[1] if len(sys.argv) > 1 else '/repo')
